@@ -30,7 +30,7 @@ PROPS = {
     "C07": dict(tests=[T("TestVerifC07", 30000, 400000), T("TestVerifC07Recover", 1500, 20000), F("FuzzVerifC07")]),
     "C08": dict(tests=[T("TestVerifC08Buffer", 6000, 100000), T("TestVerifC08Store", 150, 1500, shrinktime="0s"),
                        T("TestVerifC08Pool", 4000, 60000), T("TestVerifC08Reads", 3000, 50000),
-                       T("TestVerifC08Exhaustive", 30, 60)]),
+                       T("TestVerifC08Exhaustive", 30, 30)]),
     "C09": dict(tests=[T("TestVerifC09", 120, 400, shrinktime="0s", th_timeout=2400),
                        T("TestVerifC09Policy", 12, 150, q_shards=6, shrinktime="0s", th_timeout=2400)]),
     "C10": dict(tests=[T("TestVerifC10", 60, 1200, pkg=".", shrinktime="0s")]),
